@@ -696,6 +696,12 @@ _orig_index2 = M.arr_index
 
 
 def arr_index2(ex, st, a, sl_, node):
+    if on(ex) and isinstance(a, VArr) and a.tag == 'pts' and a.ndim == 2 and not isinstance(sl_, (ast.Tuple, ast.Slice)):
+        iv = ex.ev(sl_, st)
+        if is_num(iv) and is_intsort(iv):
+            i = M.norm_index(ex, st, iv, a.shape[0], node, 'row-index')
+            used('X[i] of a 2-D float array -> its i-th row')
+            return rvec(a.shape[1], a.t[Z(i)])
     if on(ex) and isinstance(a, VArr) and isinstance(sl_, ast.Tuple) and len(sl_.elts) == 2:
         e0, e1 = sl_.elts
         if a.tag == 'pts' and a.ndim == 2 and _full(e1) and not isinstance(e0, ast.Slice) and not _is_none_const(e0):
